@@ -42,7 +42,7 @@ Definition ex_world : world :=
 Definition ex_order : list str := [lit "ghost"; lit "base"; lit "liba"; lit "libb"; lit "app"].
 
 Definition ex_cfg : config :=
-  {| c_flavor := lit "Linux64"; c_root := lit "/s"; c_max_depth := None; c_keep := false |}.
+  {| c_flavor := lit "Linux64"; c_root := lit "/s"; c_max_depth := None; c_keep := false; c_flavors := [] |}.
 
 Definition ex_st0 : state := {| s_env := []; s_aliases := [] |}.
 
